@@ -25,7 +25,7 @@ META = {
                   '+ statement-log / raw-row / flag oracle after every step'),
     'level_text': ('Theorems C16_no_update_before_sync(_history), C16_sync_writes_pending, C16_sync_flushes_then_reloads, '
                    'C16_pending_latest, C16_dirty_iff_pending(_history), C16_insert_immediate, C16_delete_immediate, '
-                   'C16_only_flush_ops_write_lazy, C16_null_cascade_flushes_referrer, '
+                   'C16_only_flush_ops_write_lazy, C16_null_cascade_flushes_referrer, C16_unpickle_clean, '
                    'C16_pickle_flushes: for every state / every history of the model OrmVal, assignments and set() on lazy '
                    'objects send no statement and change no table; syncUpdate/sync/pickling send exactly one UPDATE holding the '
                    'latest pending value of each assigned column (none if nothing pending) and leave the row = old row '
